@@ -7,6 +7,7 @@ import (
 	"golang.org/x/tools/go/ssa"
 
 	"ocivet/internal/bounds"
+	"ocivet/internal/core"
 	"ocivet/internal/facts"
 )
 
@@ -132,6 +133,9 @@ func funcValueNonNil(v ssa.Value, in ssa.Instruction) bool {
 	switch r.(type) {
 	case *ssa.MakeClosure, *ssa.Function:
 		return true
+	case *ssa.Parameter:
+		// a callback handed in by the caller: calling it is the caller's contract
+		return true
 	}
 	tm := facts.Term(v)
 	return nonNilGuarded(in.Block(), tm)
@@ -144,4 +148,46 @@ func mapNonNil(m ssa.Value, in ssa.Instruction) bool {
 		return true
 	}
 	return nonNilGuarded(in.Block(), facts.Term(m))
+}
+
+// Discharger decides a site the prover could not: returns (ok, how).
+type Discharger func(fn *ssa.Function, s PanicSite) (bool, string)
+
+// panicInventory runs the E6 inventory over fns. Sites are keyed by
+// function + kind + operand expression (never by line).
+func panicInventory(c *core.Ctx, rule string, fns []*ssa.Function, extra Discharger) (total, proven int) {
+	seenFn := map[string]bool{}
+	for _, fn := range fns {
+		if isInstance(fn) {
+			continue
+		}
+		name := facts.FuncName(fn)
+		if seenFn[name+c.P.Pos(fn.Pos())] {
+			continue
+		}
+		seenFn[name+c.P.Pos(fn.Pos())] = true
+		c.Analysed(name)
+		sites := PanicSites(fn)
+		okAll := true
+		for _, s := range sites {
+			total++
+			if s.Proven {
+				proven++
+				continue
+			}
+			if extra != nil {
+				if ok, how := extra(fn, s); ok {
+					proven++
+					c.OK(rule, name+"/"+s.Kind+"/"+s.Expr, s.In.Pos(), "discharged by guard obligation: "+how)
+					continue
+				}
+			}
+			okAll = false
+			c.Fail(rule, name+"/"+s.Kind+"/"+s.Expr, s.In.Pos(), "unproven potential panic ("+s.Kind+" "+s.Expr+"): "+s.Why)
+		}
+		if okAll && len(sites) > 0 {
+			c.OK(rule, name+"/panic-sites", fn.Pos(), sprintf("%d panic-capable constructs, all discharged", len(sites)))
+		}
+	}
+	return
 }
